@@ -9,7 +9,7 @@ mkdir -p $out
 git -C /repo worktree remove --force $wt 2>/dev/null
 git -C /repo worktree add -f --detach $wt HEAD -q || exit 3
 cp /repo/Cargo.lock $wt/ 2>/dev/null
-export CARGO_TARGET_DIR=$wt/target CARGO_NET_OFFLINE=true
+export CARGO_TARGET_DIR=$wt/target CARGO_NET_OFFLINE=true VERIF_MAX_REPLAYS=1
 cd $wt
 git apply $src/seed/patch.diff || { echo "PATCH DOES NOT APPLY"; exit 3; }
 suite=$(cargo test --workspace --offline 2>&1 | grep -E "^test result" | awk '{p+=$4; f+=$6} END {print p" passed "f" failed"}')
@@ -26,7 +26,7 @@ cp $src/seed/README.md $out/AGENT_README.md 2>/dev/null
 rm -rf $wt/seed
 results=""
 for p in $props; do
-  VERIF_REPO=$wt VERIF_WORK=/verif/.work-mut /verif/bin/check $p --tier quick > $out/check_$p.log 2>&1
+  VERIF_REPO=$wt VERIF_WORK=${MUTWORK:-/verif/.work-mut} VERIF_JOBS=${MUTJOBS:-14} /verif/bin/check $p --tier quick > $out/check_$p.log 2>&1
   rc=$?
   echo "check $p on mutant: rc=$rc  $(grep -c '^VIOLATION' $out/check_$p.log) violation lines"
   grep -E "^VIOLATION|failed check" $out/check_$p.log | head -6 | cut -c1-260
